@@ -182,14 +182,17 @@ def run(ctx, prog, crate):
              "into `[T; 4]` (variant count and array length compared in C10/R10.2)")
 
     # R09.3 thread local
-    tls = [s for s in prog.statics(crate) if s["thread_local"] and "CURRENT_THREAD_INFO" in s["path"]]
+    from .common import tally_slot_statics
+    all_slots, KEY = tally_slot_statics(prog, crate)
+    KEY = KEY or "alloc::CURRENT_THREAD_INFO"
+    tls = [s for s in all_slots if s["thread_local"]]
     if ctx.anchor("R09.3", "thread_local statics backing CURRENT_THREAD_INFO", tls, 1):
         lazy = [s for s in tls if "LazyStorage<" in s["ty"]]
         ctx.check(not lazy, "R09.3", ["slot-const-initialised"],
                   "the thread-local slot is lazily initialised (%s): its initialiser runs inside the first allocator request of every thread" % [s["ty"] for s in lazy], "src/alloc.rs")
         if lazy:
             # say what the initialiser does
-            ini = [b for (ck_, pth, pr), b in prog.bodies.items() if ck_ == crate and pr < 0 and "CURRENT_THREAD_INFO::" in pth and "init" in pth.lower()]
+            ini = [b for (ck_, pth, pr), b in prog.bodies.items() if ck_ == crate and pr < 0 and (KEY + "::") in pth and "init" in pth.lower()]
             ib, iext, _ = prog.callee_closure(ini, crate=crate) if ini else ([], {}, [])
             for name, c in sorted(iext.items()):
                 ctx.check(name in ALLOWED_EXTERNAL or core_callee_ok(c, name), "R09.3", ["slot-initialiser", name],
@@ -203,7 +206,7 @@ def run(ctx, prog, crate):
         ctx.check(adt.get("needs_drop") is False, "R09.3", ["ThreadAllocInfo-needs-no-drop"],
                   "ThreadAllocInfo needs drop", "src/alloc.rs")
     # const-initialised: the key is built by LocalKey::new from an inline const that selects by needs_drop
-    sel = prog.bodies.get((crate, "alloc::CURRENT_THREAD_INFO::{constant#0}", -1))
+    sel = prog.bodies.get((crate, KEY + "::{constant#0}", -1))
     if ctx.anchor("R09.3", "const-initialised thread_local! (inline-const accessor selector)", 1 if sel else 0, 1):
         ctx.saw(sel)
         nd = [c for c in sel.calls if c.callee == "std::mem::needs_drop"]
@@ -221,7 +224,7 @@ def run(ctx, prog, crate):
                 for s in tc.prov.op_src(c.args[0]):
                     if s.kind == "const":
                         keys.add(s.a)
-        ctx.check(any("CURRENT_THREAD_INFO" in k for k in keys) and len(keys) == 1, "R09.3", ["key-identity"],
+        ctx.check(any(KEY in k or KEY.rsplit("::", 1)[-1] in k for k in keys) and len(keys) == 1, "R09.3", ["key-identity"],
                   "try_current reads thread-local key(s) %s" % sorted(keys), tc.where(0))
     # hooks use try_current only (never `current`, which may initialise)
     for m in present:
